@@ -135,4 +135,20 @@ theorem client_in_a_column (finite : Nat → Bool) (sched : List Element) (worke
   simp only [cfgOf, hw, hel]
   exact hc'
 
+/-- a schedule all of whose tasks end by themselves gives a configuration all of whose tasks are finite -/
+theorem cfgOf_allFinite (finite : Nat → Bool) (sched : List Element) (workers : List (List Nat))
+    (hf : ∀ id, finite id = true) : (cfgOf finite sched workers).AllFinite := by
+  intro w e col hcol t ht
+  simp only [cfgOf] at hcol
+  cases hw : workers[w]? with
+  | none => simp [hw] at hcol
+  | some rows =>
+    cases hel : sched[e]? with
+    | none => simp [hw, hel] at hcol
+    | some el =>
+      simp only [hw, hel] at hcol
+      obtain ⟨k, _, rfl, _⟩ := mem_elemCols hcol
+      obtain ⟨r, _, sub, i, _, _, rfl⟩ := mem_column ht
+      exact hf sub.id
+
 end RaceOfAlloc
